@@ -118,10 +118,10 @@ class Report(object):
             lines.append("VIOLATION property=%s replay=%s" % (self.pid, path))
         for o in unknown:
             lines.append("ANALYSIS-ERROR property=%s %s @ %s: %s" % (self.pid, o.rule, o.site, o.detail))
-        if unknown:
+        if new_viol:
+            code = 1      # a definite violation outranks an undecided instance (both are printed)
+        elif unknown:
             code = 2
-        elif new_viol:
-            code = 1
         else:
             code = 0
         # evidence
